@@ -72,6 +72,9 @@ def parseOp (o : Oracle Nat Nat) (j : Json) : R (Option (Ev Nat Nat) × Bool) :=
   | [.str "read", .str "done"] => return (readEv o (ReadRes.done : ReadRes Nat Nat), true)
   | [.str "write", raw, ck, w] => return (writeEv o (← raw.getNat?) (← ck.getBool?) (← parseWriteRes w), true)
   | [.str "assign", v] => return (some (assignEv (← v.getNat?)), false)
+  -- assignment to a parameter that is not exported: its funnel runs (`unexported_silent`), nothing is sent, the
+  -- observed parameter is untouched
+  | [.str "hidden", _] => return (none, false)
   | [.str "announce", v, e, vd] =>
     if e.isNull then return (some (.value (← v.getNat?) (← vd.getBool?)), false)
     else return (some (.error (← e.getNat?)), false)
@@ -89,6 +92,53 @@ def seqRun (o : Oracle Nat Nat) : Entry Nat Nat → List (Int × Option (Ev Nat 
   | _, [] => []
   | e, (now, some ev) :: rest => let out := announce o e now ev; out :: seqRun o out.entry rest
   | e, (_, none) :: rest => ⟨e, none⟩ :: seqRun o e rest
+
+/-! ### activation inside sequential histories -/
+
+inductive SeqOp where
+  | call (ev : Option (Ev Nat Nat))
+  | activate (k : Nat) (ps : List Nat)
+
+def parseSeqOp (o : Oracle Nat Nat) (j : Json) : R SeqOp := do
+  match (← arr j) with
+  | [.str "activate", k, ps] => return .activate (← k.getNat?) (← (← arr ps).mapM (·.getNat?))
+  | _ => return .call (← parseOp o j).1
+
+def pmsgJson (m : Nat × Msg Nat Nat) : Json := jarr [jnat m.1, veJson m.2.ve, jint m.2.t]
+
+/-- what every connection receives during one operation: the broadcast messages of the parameters it is subscribed
+to, and — for the connection that activates — the snapshot -/
+def recvJson (cids : List Nat) (act : Nat → Nat → Bool) (bcast : List (Nat × Msg Nat Nat)) (snapTo : Option Nat)
+    (snap : List (Nat × Msg Nat Nat)) : Json :=
+  jarr (cids.map (fun c => jarr (((if snapTo = some c then snap else []) ++ bcast.filter (fun m => act c m.1)).map pmsgJson)))
+
+def parseAct0 (j : Json) : R (Nat → Nat → Bool) := do
+  match j.getObjVal? "act0" with
+  | .error _ => return fun _ _ => false
+  | .ok a =>
+    let rows ← (← arr a).mapM (fun r => do
+      match (← arr r) with
+      | [k, ps] => return (← k.getNat?, ← (← arr ps).mapM (·.getNat?))
+      | _ => throw "bad act0 row")
+    return fun k p => rows.any (fun r => r.1 == k && r.2.contains p)
+
+def cidsOf (j : Json) : R (List Nat) :=
+  match j.getObjVal? "cids" with
+  | .error _ => pure []
+  | .ok _ => fldNats j "cids"
+
+/-- sequential run on one parameter (number 0) with activations, one output per operation -/
+def seqRunA (o : Oracle Nat Nat) (cids : List Nat) : (Nat → Nat → Bool) → Entry Nat Nat → List (Int × SeqOp) → List Json
+  | _, _, [] => []
+  | act, e, (now, .call (some ev)) :: rest =>
+    let out := announce o e now ev
+    (outJson out).setObjVal! "recv" (recvJson cids act (out.msg.toList.map (fun m => (0, m))) none []) ::
+      seqRunA o cids act out.entry rest
+  | act, e, (_, .call none) :: rest =>
+    (outJson ⟨e, none⟩).setObjVal! "recv" (recvJson cids act [] none []) :: seqRunA o cids act e rest
+  | act, e, (_, .activate k ps) :: rest =>
+    (outJson ⟨e, none⟩).setObjVal! "recv" (recvJson cids act [] (some k) (snapshot (fun _ => e) ps)) ::
+      seqRunA o cids (subscribe act k ps) e rest
 
 /-! ### followers (callbacks) -/
 
@@ -133,14 +183,19 @@ def mOutJson (n : Nat) (es : Nat → Entry Nat Nat) (msgs : List (Nat × Msg Nat
               ("caches", jarr ((List.range n).map (fun p => veJson (es p).ve))),
               ("ts", jarr ((List.range n).map (fun p => jint (es p).timestamp)))]
 
-def seqmRun (o : Oracle Nat Nat) (caught : CbOutcome → Bool) (fs : List Follower) (n : Nat) :
-    (Nat → Entry Nat Nat) → List (Int × TsArg × Option (Ev Nat Nat)) → List Json
-  | _, [] => []
-  | es, (clock, ts, some ev) :: rest =>
+def seqmRun (o : Oracle Nat Nat) (caught : CbOutcome → Bool) (fs : List Follower) (n : Nat) (cids : List Nat) :
+    (Nat → Nat → Bool) → (Nat → Entry Nat Nat) → List (Int × TsArg × SeqOp) → List Json
+  | _, _, [] => []
+  | act, es, (clock, ts, .call (some ev)) :: rest =>
     let r := resolve o ev
     let out := announceM o caught es 0 (effTimestamp ts clock) r (fs.map (cbOf o clock r))
-    mOutJson n out.es out.msgs :: seqmRun o caught fs n out.es rest
-  | es, (_, _, none) :: rest => mOutJson n es [] :: seqmRun o caught fs n es rest
+    (mOutJson n out.es out.msgs).setObjVal! "recv" (recvJson cids act out.msgs none []) ::
+      seqmRun o caught fs n cids act out.es rest
+  | act, es, (_, _, .call none) :: rest =>
+    (mOutJson n es []).setObjVal! "recv" (recvJson cids act [] none []) :: seqmRun o caught fs n cids act es rest
+  | act, es, (_, _, .activate k ps) :: rest =>
+    (mOutJson n es []).setObjVal! "recv" (recvJson cids act [] (some k) (snapshot es ps)) ::
+      seqmRun o caught fs n cids (subscribe act k ps) es rest
 
 /-! ### concurrent runs -/
 
@@ -153,6 +208,8 @@ def parseLabel (j : Json) : R (Tid × Option Label) := do
   | [t, .str "relA"] => return (← t.getNat?, some .relA)
   | [t, .str "acqS"] => return (← t.getNat?, some .acqS)
   | [t, .str "relS"] => return (← t.getNat?, some .relS)
+  | [t, .str "acqD"] => return (← t.getNat?, some .acqD)
+  | [t, .str "relD"] => return (← t.getNat?, some .relD)
   | [t, .str "send", c] => return (← t.getNat?, some (.send (← c.getNat?)))
   | _ => throw s!"bad label {j.compress}"
 
@@ -196,33 +253,42 @@ def handle (j : Json) : R Json := do
     let o ← parseOracle j
     let e ← parseEntry (← fld j "entry")
     let ops ← (← fldArr j "ops").mapM (fun x => do
-      let ev ← parseOp o (← fld x "op")
-      return ((← fldInt x "now"), ev.1))
-    return Json.mkObj [("window", jint e.window), ("init", veJson e.ve), ("outs", jarr ((seqRun o e ops).map outJson))]
+      let op ← parseSeqOp o (← fld x "op")
+      return ((← fldInt x "now"), op))
+    return Json.mkObj [("window", jint e.window), ("init", veJson e.ve),
+      ("outs", jarr (seqRunA o (← cidsOf j) (← parseAct0 j) e ops))]
   | "seqm" =>
     let o ← parseOracle j
     let entries ← (← fldArr j "entries").mapM parseEntry
     let fs ← (← fldArr j "followers").mapM parseFollower
     let ops ← (← fldArr j "ops").mapM (fun x => do
-      let ev ← parseOp o (← fld x "op")
-      return ((← fldInt x "now"), (← parseTs (← fld x "ts")), ev.1))
+      let op ← parseSeqOp o (← fld x "op")
+      return ((← fldInt x "now"), (← parseTs (← fld x "ts")), op))
     let dflt : Entry Nat Nat := ⟨0, none, 0, 0⟩
     return Json.mkObj [("windows", jarr (entries.map (fun e => jint e.window))),
       ("init", jarr (entries.map (fun e => veJson e.ve))),
-      ("outs", jarr (seqmRun o (catches Generated.C05.callbackCaught) fs entries.length (fun p => entries.getD p dflt) ops))]
+      ("outs", jarr (seqmRun o (catches Generated.C05.callbackCaught) fs entries.length (← cidsOf j) (← parseAct0 j)
+        (fun p => entries.getD p dflt) ops))]
   | "judge_seq" =>
-    let init ← parseVe (← fld j "init")
     let tr ← (← fldArr j "trace").mapM parseObs
-    match judge isErr init tr with
+    let verdict ← if (← fld j "init").isNull then do
+        -- the stream of a connection from its activation on: it knows nothing, `prev` = the cache at that moment
+        pure (judgeO isErr (← parseVe (← fld j "prev")) tr)
+      else do pure (judge isErr (← parseVe (← fld j "init")) tr)
+    match verdict with
     | none => return Json.mkObj [("bad", Json.null)]
     | some (i, cl) => return Json.mkObj [("bad", jarr [jnat i, Json.str cl])]
   | "conc" =>
     let o ← parseOracle j
     let entries ← (← fldArr j "entries").mapM parseEntry
     let conns ← fldNats j "conns"
-    let cfg : Cfg Nat Nat := ⟨o, conns, ← fldInt j "tick"⟩
+    let act0 ← parseAct0 j
+    let cfg : Cfg Nat Nat := ⟨o, conns, ← fldInt j "tick", act0⟩
     let progs ← (← fldArr j "progs").mapM (fun th => do
       let ops ← (← arr th).mapM (fun x => do
+        match x.getObjVal? "activate" with
+        | .ok k => return [Op.activate (← k.getNat?) (← fldNats x "ps")]
+        | .error _ =>
         let p ← fldNat x "p"
         let ts ← match x.getObjVal? "ts" with
           | .ok t => parseTs t
@@ -231,7 +297,7 @@ def handle (j : Json) : R Json := do
       return ops.flatten)
     let labels ← (← fldArr j "labels").mapM parseLabel
     let dflt : Entry Nat Nat := ⟨0, none, 0, 0⟩
-    let s0 := Sys.init (fun p => entries.getD p dflt) (fun t => progs.getD t []) (← fldInt j "clock")
+    let s0 := Sys.init (fun p => entries.getD p dflt) (fun t => progs.getD t []) (← fldInt j "clock") act0
     let tids := List.range progs.length
     match follow cfg s0 [] labels with
     | .error e => return Json.mkObj [("ok", Json.bool false), ("err", Json.str e)]
@@ -252,6 +318,19 @@ def handle (j : Json) : R Json := do
         | [m, sn] => return (⟨← parseVe m, ← parseVe sn⟩ : Delivered S)
         | _ => throw "bad delivery"))
     match judgeConc (⟨init, logs, final⟩ : ConcObs S) with
+    | none => return Json.mkObj [("bad", Json.null)]
+    | some cl => return Json.mkObj [("bad", Json.str cl)]
+  | "judge_conc_a" =>
+    let final ← parseVe (← fld j "final")
+    let conns ← (← fldArr j "conns").mapM (fun c => do
+      let kn ← fld c "known"
+      let known ← if kn.isNull then pure none else some <$> parseVe kn
+      let log ← (← fldArr c "log").mapM (fun d => do
+        match (← arr d) with
+        | [m, sn] => return (⟨← parseVe m, ← parseVe sn⟩ : Delivered S)
+        | _ => throw "bad delivery")
+      return (⟨known, ← fldBool c "activated", ← fldBool c "fromStart", log⟩ : ConnLog S))
+    match judgeConcA (⟨conns, final⟩ : ConcObsA S) with
     | none => return Json.mkObj [("bad", Json.null)]
     | some cl => return Json.mkObj [("bad", Json.str cl)]
   | "window" =>
